@@ -48,6 +48,7 @@ type c19xCell struct {
 	EnvEnabled  string `json:"env_enabled,omitempty"` // "" = variable unset
 	EnvIv       string `json:"env_interval,omitempty"`
 	ProgOff     bool   `json:"enabled_set_false_in_code_after_NewConfig,omitempty"`
+	ProgOffLate bool   `json:"enabled_set_false_in_code_between_New_and_Start,omitempty"`
 	KeepEnv     bool   `json:"environment_kept_for_the_server_lifetime,omitempty"` // only for a cell that runs alone
 	Expect      string `json:"expect"`                                             // zero | count | some
 }
@@ -151,7 +152,10 @@ func c19xConfig(c *c19xCell) (*Config, error) {
 		return nil, err
 	}
 	c.Parsed = fmt.Sprintf("enabled=%v interval.seconds=%d", cfg.Telemetry.Enabled, cfg.Telemetry.IntervalSeconds)
-	if c.ProgOff {
+	if c.ProgOff && c.ProgOffLate {
+		c19AfterNew.Store(cfg, func() { cfg.Telemetry.Enabled = false })
+		c.Parsed += " (NewConfig) -> enabled=false (set in code between New(cfg) and Start())"
+	} else if c.ProgOff {
 		cfg.Telemetry.Enabled = false
 		c.Parsed += " (NewConfig) -> enabled=false (set in code)"
 	}
@@ -170,6 +174,9 @@ func c19xFingerprint(c *c19xCell) string {
 		}
 		return fp
 	case "programmatic-off-after-NewConfig":
+		if c.ProgOffLate {
+			return "C19:telemetry-sent-while-disabled:programmatic:between-New-and-Start"
+		}
 		return "C19:telemetry-sent-while-disabled:programmatic:after-NewConfig"
 	case "file-off-env-interval":
 		fp := "C19:telemetry-sent-while-disabled:config-file-" + c.FileForm + ":env-interval"
@@ -184,7 +191,7 @@ func c19xFingerprint(c *c19xCell) string {
 func TestVerifC19Conflict(t *testing.T) {
 	rep := kit.NewReport("C19", "conflict")
 	defer rep.Write()
-	rep.SetRule("http.DefaultTransport is a recorder; real single-node servers configured through the real NewConfig from TWO sources that disagree.  Sweep (configuration level): every spelling of 'off' for LIFTBRIDGE_TELEMETRY_ENABLED (15) x a config file that says enabled: true {nested, dotted} x {no interval, interval in the file}; every combination that does NOT come out disabled is run as a real server lifetime (at most 2 per file form x spelling class).  Phase Z (must stay silent; real lifetimes: start, leader, stream + publish with needles, Stop()): file enabled: true {nested, dotted} x {no interval, interval in the file / through LIFTBRIDGE_TELEMETRY_INTERVAL_SECONDS} x LIFTBRIDGE_TELEMETRY_ENABLED=<off> with the spelling classes documented / go-bool / yaml11-bool / word rotating (seeded member); NewConfig(file says enabled) resp. NewConfig(\"\") with the variable saying true, then Config.Telemetry.Enabled=false in code (the variables back to unset while the servers run; phase P repeats it with ONE server running alone and LIFTBRIDGE_TELEMETRY_ENABLED=<on> + the interval variable kept in the process environment for its whole lifetime); file enabled: false {nested, dotted} x LIFTBRIDGE_TELEMETRY_INTERVAL_SECONDS {positive, 0, negative}.  Oracle when the last Stop() of the phase has returned: ZERO requests recorded (a request is attributed to its cell through the .instance_id file its collector left).  Phase E (only counted + judged like any report): file enabled: false x LIFTBRIDGE_TELEMETRY_ENABLED=<on>, and a control with both sources saying on (shows the recorder alive).  non-trivial = server came up, was used and stopped (sweep: configuration built); distinct = kind x file form x intervals x spelling")
+	rep.SetRule("http.DefaultTransport is a recorder; real single-node servers configured through the real NewConfig from TWO sources that disagree.  Sweep (configuration level): every spelling of 'off' for LIFTBRIDGE_TELEMETRY_ENABLED (15) x a config file that says enabled: true {nested, dotted} x {no interval, interval in the file}; every combination that does NOT come out disabled is run as a real server lifetime (at most 2 per file form x spelling class).  Phase Z (must stay silent; real lifetimes: start, leader, stream + publish with needles, Stop()): file enabled: true {nested, dotted} x {no interval, interval in the file / through LIFTBRIDGE_TELEMETRY_INTERVAL_SECONDS} x LIFTBRIDGE_TELEMETRY_ENABLED=<off> with the spelling classes documented / go-bool / yaml11-bool / word rotating (seeded member); NewConfig(file says enabled) resp. NewConfig(\"\") with the variable saying true, then Config.Telemetry.Enabled=false in code, before New(cfg) and — one cell — between New(cfg) and Start() (the variables back to unset while the servers run; phase P repeats it with ONE server running alone and LIFTBRIDGE_TELEMETRY_ENABLED=<on> + the interval variable kept in the process environment for its whole lifetime); file enabled: false {nested, dotted} x LIFTBRIDGE_TELEMETRY_INTERVAL_SECONDS {positive, 0, negative}.  Oracle when the last Stop() of the phase has returned: ZERO requests recorded (a request is attributed to its cell through the .instance_id file its collector left).  Phase E (only counted + judged like any report): file enabled: false x LIFTBRIDGE_TELEMETRY_ENABLED=<on>, and a control with both sources saying on (shows the recorder alive).  non-trivial = server came up, was used and stopped (sweep: configuration built); distinct = kind x file form x intervals x spelling")
 	rep.Assume("precedence: server/config.go declares the two variables as 'Environment variables overriding the telemetry settings' and CHANGELOG.md documents `export LIFTBRIDGE_TELEMETRY_ENABLED=false` as an opt-out without any condition on the configuration file, so an opt-out through the environment must hold whatever the file says.  The reverse disagreement (file says false, variable says true) is NOT judged: by the same rule the variable wins on the tree this check was built on and the operator asked for telemetry explicitly; it is counted (file_off_env_on/...) and what is sent is judged like every report")
 	rep.Assume("Config.Telemetry.Enabled=false assigned after NewConfig returned is the programmatic opt-out of an embedding program; New(config) must honour the value it is given")
 	defer c19PlantEnv(rep)()
@@ -362,6 +369,11 @@ func TestVerifC19Conflict(t *testing.T) {
 			cellsZ = append(cellsZ, c)
 			c = newCell("Z", "programmatic-off-after-NewConfig", "zero")
 			c.FileForm, c.EnvEnabled, c.EnvIv, c.ProgOff = "none", []string{"true", "1", "TRUE", "t"}[round%4], "1", true
+			cellsZ = append(cellsZ, c)
+			// ... and switched off between New(cfg) and Start(): the server
+			// reads its configuration when it starts
+			c = newCell("Z", "programmatic-off-after-NewConfig", "zero")
+			c.FileForm, c.FileEnabled, c.FileIv, c.ProgOff, c.ProgOffLate = []string{"dotted", "nested"}[round%2], "true", "1", true, true
 			cellsZ = append(cellsZ, c)
 		}
 		// file says off, the environment still carries an interval
